@@ -1,4 +1,7 @@
 import Momo.Proof.LedgerObj
+import Momo.Proof.LedgerPool
+import Momo.Proof.LedgerVal
+import Momo.Props.C09
 /-!
 # C03 — Every byte and every element is released exactly once, never touched after
 
@@ -164,6 +167,59 @@ theorem C03_obj_replay_is_monitor (evs : List Obj.Ev) (occ : Nat → Bool) (s : 
   | none => rw [hr] at this; simp [this]
   | some occ' => rw [hr] at this; obtain ⟨s', h1, _⟩ := this; simp [h1]
 
+/-- **MemPool, every legal history** (`Pool.Reach`: any sequence of `Allocate` - succeeding or refused by the manager -,
+`Deallocate` of live blocks, `DeallocateIf`, `DeallocateAll`, `MergeFrom`; Props/C09.lean), `blockCount > 1`: the calls
+made to the memory manager up to any point are accepted by the C03 monitor, and once `DeallocateAll` has run - at any
+time - the history is balanced: every buffer obtained from the manager has been given back exactly once with the size
+it was requested with (`C03_block_released_once` applies to it). Hypothesis `FreshMallocs`: the manager never answers
+with an address that is still outstanding (its contract; not implied by `Pool.Contract`, which speaks about one
+answer at a time). -/
+theorem C03_pool_history_all_returned (m : Nat) (P : Pool.Params) (hL : P.Legal) (hN2 : 2 ≤ P.N) (p : Pool.Pool)
+    (es : List Pool.Ev) (h : Pool.Reach P p es) :
+    ∃ evs, Pool.deallocateAll P p = .ok () Pool.Pool.empty evs ∧
+      (FreshMallocs [] (es ++ evs) → balanced ((es ++ evs).map (ofPool m)) = true) := by
+  obtain ⟨_, _, _, ⟨evs, h1, h2⟩, _⟩ := Pool.C09_history P hL hN2 p es h
+  exact ⟨evs, h1, fun hf => poolLedger_balanced m _ h2 hf⟩
+
+/-- … and the destructor of a pool without live blocks leaves nothing outstanding either. -/
+theorem C03_pool_destroy_all_returned (m : Nat) (P : Pool.Params) (hL : P.Legal) (hN2 : 2 ≤ P.N) (p : Pool.Pool)
+    (es : List Pool.Ev) (h : Pool.Reach P p es) (hlive : p.live P = []) :
+    ∃ evs, Pool.destroy P p = .ok () Pool.Pool.empty evs ∧
+      (FreshMallocs [] (es ++ evs) → balanced ((es ++ evs).map (ofPool m)) = true) := by
+  obtain ⟨_, _, _, _, hd⟩ := Pool.C09_history P hL hN2 p es h
+  obtain ⟨evs, h1, h2⟩ := hd hlive
+  exact ⟨evs, h1, fun hf => poolLedger_balanced m _ h2 hf⟩
+
+/-- the pool's own multiset ledger (the one C09's theorems speak about) and the C03 monitor agree on every event list
+that respects the manager's contract: whatever C09 proves exact is accepted here -/
+theorem C03_pool_ledger_is_monitor (m : Nat) (evs : List Pool.Ev) (L' : List (Int × Int))
+    (h : Pool.ledger [] evs = some L') (hf : FreshMallocs [] evs) :
+    ∃ st, run St.init (evs.map (ofPool m)) = some st ∧ Holds m st L' := by
+  obtain ⟨st, h1, h2, _, _⟩ := poolLedger_accepted m evs [] L' St.init h (by simp [NodupKeys]) hf
+    (by intro a; simp [St.init, findB, lk])
+  exact ⟨st, h1, h2⟩
+
+/-- **Value-semantics model, every history** (`Momo.Val`, C14: constructors, copy / move construction and assignment,
+Swap, Clear, destructors, mutations with any reported layout, the allocator-aware operations of the stdish wrappers, over
+any number of objects and manager identities): the manager calls the model makes are accepted by the C03 monitor -
+in particular every block goes back to the manager class that allocated it, whatever moves, swaps and assignments
+happened in between - and the blocks outstanding in the monitor are exactly the cells of the model's heap. -/
+theorem C03_val_history_accepted (cfg : Val.Cfg) (ops : List Val.Op) (w : Val.World) (evs : List Val.Ev)
+    (h : runOpsEv cfg Val.World.init ops = some (w, evs)) :
+    ∃ st, run St.init (blockEvs evs) = some st ∧ Sync st w.heap := by
+  have hs0 : Sync (St.init : St Nat) Val.World.init.heap := by
+    intro x; simp [St.init, findB, Val.World.init, Val.Heap.empty, Val.Heap.get, Val.lookupH]
+  obtain ⟨st, h1, _, h3, _⟩ := runOps_sync cfg ops Val.WF.init h hs0
+  exact ⟨st, h1, h3⟩
+
+/-- **… and destruction leaves zero outstanding blocks**: any history of value operations after which every object has
+been destroyed is balanced - each block the managers handed out was given back exactly once through an equal manager
+(`C03_block_released_once`, `C03_block_counts` apply). -/
+theorem C03_val_history_all_destroyed (cfg : Val.Cfg) (ops : List Val.Op) (w : Val.World) (evs : List Val.Ev)
+    (h : runOpsEv cfg Val.World.init ops = some (w, evs)) (hdead : ∀ i, w.objs i = none) :
+    balanced (blockEvs evs) = true :=
+  runOps_all_destroyed_balanced cfg ops h hdead
+
 /-! ## non-vacuity -/
 
 /-- a history with two managers, a growth step with relocation, a copy, and complete release -/
@@ -200,5 +256,17 @@ example : Represents ({ elems := [100, 101, 102] } : St Nat) (Obj.occOf (fun a =
         have e1 : ¬ 101 = a := fun h => h1 h.symm
         have e2 : ¬ 102 = a := fun h => h2 h.symm
         simp [this, e0, e1, e2]
+
+-- a value-model history: two hash-set-like objects (crew block + one body block each) with managers 1 and 2, a move
+-- assignment, a swap, destruction of both: accepted and balanced
+def exValOps : List Val.Op :=
+  [.new 0 1, .new 1 2, .mutate 0 [] [[1, 2, 3]] 0, .mutate 1 [] [[7]] 0, .copyCtor 2 0, .moveAssign 1 0,
+   .swap 1 2, .destroy 0, .destroy 1, .destroy 2]
+def exValCfg : Val.Cfg := { k := { crewPtr := true } }
+example : ((runOpsEv exValCfg Val.World.init exValOps).map (fun r => balanced (blockEvs r.2))) = some true := by decide
+-- a pool event list: two buffers obtained, both returned
+example : balanced ([Pool.Ev.malloc 4096 264, .malloc 8192 264, .free 4096 264, .free 8192 264].map (ofPool 1)) = true := by decide
+example : FreshMallocs [] [Pool.Ev.malloc 4096 264, .malloc 8192 264, .free 4096 264, .free 8192 264] := by
+  simp [FreshMallocs]
 
 end Momo.Ledger
